@@ -1,11 +1,13 @@
 \* C20 pipeline as coded at the pinned commit (unsupported encoding falls through to the rewrite): TLC must reject PassThroughIsIdentity.
 CONSTANTS
   UnsupportedRule = "rewrite"
+  HeadRule = "pass"
+  CtRule = "caseinsensitive"
   ParseRule = "scripting"
   CspRule = "policylist"
   LengthRule = "set"
   EmitCases = FALSE
 INIT Init
 NEXT Next
-INVARIANTS TypeOK PassThroughIsIdentity HtmlGetsExactlyOneScript DocumentOnlyAppendedTo LengthMatchesBody EncodingHeaderDescribesBody
+INVARIANTS TypeOK PassThroughIsIdentity HtmlGetsExactlyOneScript DocumentOnlyAppendedTo LengthMatchesBody EncodingHeaderDescribesBody HeadIsUntouched
 CHECK_DEADLOCK FALSE
